@@ -704,20 +704,78 @@ def gen_c29(rng, length):
     return ops
 
 
+def gen_c29_procedures(rng):
+    """instant procedures and local disconnects in every transient link layer state, followed by
+    the loss of the link: LL_CONNECTION_UPDATE_IND / LL_CHANNEL_MAP_IND / LL_PHY_UPDATE_IND with an
+    instant a few events ahead, events (received or timed out) up to and including the instant,
+    then timeouts until the link is dropped / disconnect() / LL_TERMINATE_IND; also disconnect()
+    while connecting and timeouts while disconnecting."""
+    cfg = rng.choice([0, 0, 1])
+    ops = ["reset %d" % cfg, "connect 24 72"]
+    j = 0                                  # connection events (ev / to) of this connection so far
+    shape = rng.random()
+    if shape < 0.12:                       # state connecting
+        ops += rng.choice([["api disconnect"] + ["to"] * 8, ["api disconnect", "ev", "ev", "ev", "ev"],
+                           ["to"] * 3 + ["api disconnect"] + ["to"] * 6, ["to"] * 7])
+        return ops + ["connect 24 72", "ev"]
+    for _ in range(rng.randrange(1, 4)):
+        ops.append("ev")
+        j += 1
+    if shape < 0.24:                       # state disconnecting
+        ops.append("api disconnect %d" % rng.choice([0x13, 0x16]) if rng.random() < 0.5 else "api disconnect")
+        ops += rng.choice([["to"] * 30, ["ev"] + ["to"] * 30, ["ev", "ev", "ev", "ev"], ["to", "to", "ev", "ev", "ev"],
+                           ["ev " + terminate(0x13), "ev", "ev"]])
+        return ops + ["connect 24 72", "ev"]
+    k = rng.choice([1, 2, 3, 4])
+    instant = j + 1 + k                    # the PDU is handled at event counter j, applied when the counter reaches `instant`
+    interval, timeout = rng.choice([(16, 10), (24, 72), (16, 10), (40, 20)])
+    kind = rng.choice(["update", "update", "update", "chanmap", "phy" if cfg == 0 else "update"])
+    if kind == "update":
+        pdu = ctrl(0x00, "01" + le(0, 2) + le(interval, 2) + le(0, 2) + le(timeout, 2) + le(instant, 2))
+    elif kind == "chanmap":
+        pdu = ctrl(0x01, "ffffff0f1f" + le(instant, 2))
+    else:
+        pdu = ctrl(0x18, "0202" + le(instant, 2))
+    extra = [version_ind()] if rng.random() < 0.3 else []
+    ops.append("ev " + " ".join(extra + [pdu]))
+    j += 1
+    while j < instant:                     # events up to and including the instant (received or lost)
+        ops.append(rng.choice(["ev", "ev", "to"]))
+        j += 1
+    tail = rng.random()
+    if tail < 0.45:                        # the link is lost right after the instant
+        ops += ["to"] * 30
+    elif tail < 0.60:
+        ops += ["api disconnect"] + rng.choice([["to"] * 30, ["ev", "ev", "ev", "ev"], ["ev"] + ["to"] * 30])
+    elif tail < 0.72:
+        ops += ["ev " + terminate(rng.choice([0x13, 0x16]))]
+    elif tail < 0.86:
+        ops += ["ev"] * rng.randrange(1, 3) + ["to"] * 30
+    else:
+        ops += ["ev " + ctrl(0x0d, "3b"), "to", "ev", "api disconnect", "ev", "ev", "ev"]
+    return ops + ["connect 24 72", "ev", "ev " + terminate(0x13)]
+
+
 def run_c29(ctx, replay_path=None):
     res = Result()
     res.rule = ("sessions on both link layer types: connects, connection events with bursts of 0-3 (sometimes 4-6) event producing control PDUs "
                 "(LL_VERSION_IND, LL_REJECT_IND, LL_REJECT_EXT_IND, LL_UNKNOWN_RSP, LL_FEATURE_REQ), LL_TERMINATE_IND, radio timeouts (attempt timeout, supervision timeout), "
-                "disconnect(), re-connects; compared: the exact callback sequence incl. arguments per radio callback; monitor: callback trace in "
+"disconnect(), re-connects; plus procedure sessions: LL_CONNECTION_UPDATE_IND / LL_CHANNEL_MAP_IND / LL_PHY_UPDATE_IND with an instant 2-5 events ahead, "
+                "events up to the instant, then loss of the link / disconnect() / LL_TERMINATE_IND in the states connection_changed, connected, disconnecting, and disconnect() / loss while connecting; compared: the exact callback sequence incl. arguments per radio callback; monitor: callback trace in "
                 "(requested (attempt_timeout | established other* closed))*, agrees with the link layer state after every op, one callback per event producing PDU. "
                 "non-trivial = session with at least one closed connection")
     sessions = [ops for _, ops in ctx.corpus()]
     for i in range(2500 if ctx.thorough else 300):
         sessions.append(gen_c29(ctx.rng, ctx.rng.randrange(10, 50)))
+    for i in range(1200 if ctx.thorough else 160):
+        sessions.append(gen_c29_procedures(ctx.rng))
     evaluate(ctx, res, sessions, proj_c29, monitor_c29, "C29")
     for ops, r in zip(sessions, res.extra.pop("_impl")):
         closed = any("closed" in l for l in r["out"])
         res.count("sessions_with_closed", closed)
+        res.count("sessions_with_changed_callback", any("changed" in cb_list(fields(l)) for l in r["out"]))
+        res.count("sessions_lost_in_state_connection_changed", any("st=changed" in a and "closed:08" in b for a, b in zip(r["out"], r["out"][1:])))
+        res.count("sessions_with_phy_callback", any("phy:" in l for l in r["out"]))
         res.count("sessions_with_attempt_timeout", any("attempt_timeout" in l for l in r["out"]))
         res.count("radio_callbacks_reporting_4_events", sum(1 for l in r["out"] if len(cb_list(fields(l))) == 4))
         if closed:
@@ -765,6 +823,7 @@ PROPS = {
     ),
     "C29": dict(
         theorems=["BluetoeModel.LlControl.callbacks_well_ordered_partial",
+                  "BluetoeModel.LlControl.force_disconnect_reports_closed",
                   "BluetoeModel.LlControl.ring_reports_first_four",
                   "BluetoeModel.LlControl.ring_empty_between_callbacks",
                   "BluetoeModel.LlControl.dropped_only_when_ring_full",
